@@ -571,8 +571,37 @@ func c08GenTies(w *bufio.Writer, r *rng, n int) {
 	}
 }
 
+// c08GenRaceCleanup: stale-route cleanup racing with the writers that reshuffle a slice holding a
+// stale remote route in front of a local one (withdraw, peer disconnect, a re-sorting add): in every
+// serial order only the stale remote route goes and the local one stays.
+func c08GenRaceCleanup(w *bufio.Writer, r *rng) {
+	p := r.pickS("c0a83200 24 32", "0a000000 8 32", "20010db8000000000000000000000000 32 128")
+	fmt.Fprintln(w, "reset 1")
+	n := 1 + r.intn(3)
+	for i := 0; i < n; i++ {
+		fmt.Fprintf(w, "add %s 2 %d %d 1 %d\n", p, 2+i, 1+i, 2+i) // remote, cheap: sorted first
+	}
+	fmt.Fprintf(w, "add %s 1 1 9 1 -\n", p) // local, expensive: sorted last
+	for i := 0; i < 120; i++ { // a larger table: the cleanup scan takes longer
+		fmt.Fprintf(w, "add ac%02x%02x00 24 32 3 %d 1 1 %d\n", i/256+16, i%256, 5+i%3, 5+i%3)
+	}
+	fmt.Fprintln(w, "age 3")
+	switch r.intn(3) {
+	case 0:
+		fmt.Fprintf(w, "race 1 | clean 1 | rm %s 2\n", p)
+	case 1:
+		fmt.Fprintf(w, "race 1 | clean 1 | disc 2\n")
+	default:
+		fmt.Fprintf(w, "race 1 | clean 1 | rm %s 2 | disc 2\n", p)
+	}
+	fmt.Fprintf(w, "has %s 1\nsize\n", p)
+}
+
 func c08Gen(w *bufio.Writer, seed int64, tier string) {
 	r := newRng(c08Mix(seed))
+	for c := 0; c < 4; c++ {
+		c08GenRaceCleanup(w, r)
+	}
 	ties := 2
 	if tier == "thorough" {
 		ties = 25
